@@ -118,13 +118,13 @@ def main():
             full.append(case(a, zc, r + bytes(32)))
     quick = []
     # a spread of the matrix for the quick tier
-    for i in range(0, len(full), 23):
+    for i in range(5, len(full), 47):
         quick.append(full[i])
 
     edge = []
     a, prefix, A = keypair(bytes(range(32)))
     msg = b"C29 edge vector"
-    for i, T in [(1, tors[1]), (2, tors[2]), (4, tors[4])]:   # orders 8, 4, 2
+    for i, T in [(1, tors[1]), (4, tors[4])]:   # orders 8, 2
         # mixed-order public key A' = A + T, honest-style signature over the encoding of A'
         A2 = add(A, T)
         r = H(prefix, msg) % L
